@@ -187,11 +187,14 @@ class Traced : public PLApproximator<Con> {
 //  2: periodic triangle-ish smooth: f = x*(2-x) on period [0,2], breakpoints {0,1,2}
 //  3: f = x^2 with f'' reported as 0 (initial step falls back to interval/100)
 //  4: many default breakpoints, some of them closer than 1e-4, f = x^2/2
+//  7: f = x^2 on [0,4] whose inverse returns the negative root: MP_ASSERT_ALWAYS "preim(1.0) outside" fires
+//  6: f = x^2 on [0,4] with f'' reported as 4*(ubErr*8/3), so that the initial step is exactly 0.5; with ubErr = 1/16 the
+//     estimated error of the first segment EQUALS the tolerance (CompareError returns 0)
 //  5: plateaus joined by ramps, breakpoints every 0.5 (exercises the equal-y merge rule), f'' = 0, f' not invertible
 class Synth : public BasicPLApproximator<ExpConstraint> {
  public:
-  Synth(const ExpConstraint &c, PLApproxParams &p, int kind) : BasicPLApproximator<ExpConstraint>(c, p), k_(kind) {}
-  int k_;
+  Synth(const ExpConstraint &c, PLApproxParams &p, int kind) : BasicPLApproximator<ExpConstraint>(c, p), k_(kind), tol_(p.ubErr) {}
+  int k_; double tol_;
   FuncGraphDomain GetFuncGraphDomain() const override {
     switch (k_) {
       case 0: return {-8, 8, -1e6, 1e6};
@@ -199,6 +202,7 @@ class Synth : public BasicPLApproximator<ExpConstraint> {
       case 2: return {-1e100, 1e100, -1e6, 1e6};
       case 3: return {-4, 4, -1e6, 1e6};
       case 4: return {-3, 3, -1e6, 1e6};
+      case 6: case 7: return {0, 4, -1e6, 1e6};
       default: return {-4, 4, -1e6, 1e6};
     }
   }
@@ -211,6 +215,7 @@ class Synth : public BasicPLApproximator<ExpConstraint> {
       case 1: return {-6, 0, 6};
       case 2: return {0, 1, 2};
       case 3: return {-4, 4};
+      case 6: case 7: return {0, 4};
       case 4: return {-3, -1, -0.99995, -0.5, 0, 0.00005, 0.0001, 0.25, 1, 1.00001, 3};
       default: return {-4, -3.5, -3, -2.5, -2, -1.5, -1, -0.5, 0, 0.5, 1, 1.5, 2, 2.5, 3, 3.5, 4};
     }
@@ -225,7 +230,7 @@ class Synth : public BasicPLApproximator<ExpConstraint> {
       case 0: v = x * x / 4; break;
       case 1: v = x * x * x / 16; break;
       case 2: v = x * (2 - x); break;
-      case 3: v = x * x; break;
+      case 3: case 6: case 7: v = x * x; break;
       case 4: v = x * x / 2; break;
       default: v = plateau(x);
     }
@@ -237,7 +242,8 @@ class Synth : public BasicPLApproximator<ExpConstraint> {
       case 0: v = (lb_sub() < 0 ? -1 : 1) * std::sqrt(4 * std::fabs(y)); break;
       case 1: v = std::cbrt(16 * y); break;
       case 2: v = GetSubIntvIndex() < 1 ? 1 - std::sqrt(std::fabs(1 - y)) : 1 + std::sqrt(std::fabs(1 - y)); break;
-      case 3: v = std::sqrt(std::fabs(y)); break;
+      case 3: case 6: v = std::sqrt(std::fabs(y)); break;
+      case 7: v = -std::sqrt(std::fabs(y)); break;   // wrong branch: the pre-image of 1 lies outside the segment
       case 4: v = (lb_sub() < 0 ? -1 : 1) * std::sqrt(2 * std::fabs(y)); break;
       default: v = y;
     }
@@ -249,7 +255,7 @@ class Synth : public BasicPLApproximator<ExpConstraint> {
       case 0: v = x / 2; break;
       case 1: v = 3 * x * x / 16; break;
       case 2: v = 2 - 2 * x; break;
-      case 3: v = 2 * x; break;
+      case 3: case 6: case 7: v = 2 * x; break;
       case 4: v = x; break;
       default: { double fl = std::floor(x / 2.0) * 2.0; v = (x - fl) <= 1.0 ? 0.0 : 2.0; }
     }
@@ -261,7 +267,7 @@ class Synth : public BasicPLApproximator<ExpConstraint> {
       case 0: v = 2 * y; break;
       case 1: v = (lb_sub() < 0 ? -1 : 1) * std::sqrt(std::fabs(16 * y / 3)); break;
       case 2: v = (2 - y) / 2; break;
-      case 3: v = y / 2; break;
+      case 3: case 6: case 7: v = y / 2; break;
       case 4: v = y; break;
       default: v = NAN;   // f' is not invertible: the candidate is ignored by std::max
     }
@@ -274,6 +280,8 @@ class Synth : public BasicPLApproximator<ExpConstraint> {
       case 1: v = 3 * x / 8; break;
       case 2: v = -2; break;
       case 3: v = 0; break;
+      case 6: v = 4 * (tol_ * 8.0 / 3.0); break;
+      case 7: v = 2; break;
       case 4: v = 1; break;
       default: v = 0;
     }
@@ -454,9 +462,10 @@ static void print_out(const Case &c, const Out &o) {
 
 #ifdef PL_TRACE
 static void print_trace(const Case &c) {
-  bool big = (long)g_trace.size() > g_cap || (long)g_trace.size() > g_total;
+  // synthetic records are small and always replayed: the per-run budget applies to the real function types only
+  bool big = (long)g_trace.size() > g_cap || (c.fn < SYN && (long)g_trace.size() > g_total);
   std::printf("T %d %d", c.id, g_nondet ? -1 : big ? -2 : int(g_trace.size()));
-  if (!big) g_total -= (long)g_trace.size();
+  if (!big && c.fn < SYN) g_total -= (long)g_trace.size();
   if (!g_nondet && !big)
     for (const auto &t : g_trace) { std::printf(" %c %d", t.k, t.idx); ph(t.a); ph(t.v); }
   std::printf("\n");
@@ -588,7 +597,15 @@ static void explore(const Case &c, const Out &o, int K) {
   }
   const char *cls = "within";
   if (w.ratio > 1.001L) {
-    if (!std::strcmp(w.where, "left-of-first") || !std::strcmp(w.where, "right-of-last") || !std::strcmp(w.where, "int-outside")) cls = "outside-breakpoints";
+    if (!std::strcmp(w.where, "left-of-first") || !std::strcmp(w.where, "right-of-last") || !std::strcmp(w.where, "int-outside")) {
+      cls = "outside-breakpoints";
+      // farther from the breakpoints than the merge rule / float rounding of the ends can explain: the reported
+      // domain is not covered by the PL at all
+      if (!p.fUsePeriod && n >= 1) {
+        long double gap = w.x < pl.x_.front() ? pl.x_.front() - w.x : w.x > pl.x_.back() ? w.x - pl.x_.back() : 0;
+        if (gap > 2e-4L + 1e-6L * fabsl(w.x)) cls = "uncovered-domain";
+      }
+    }
     else if (!std::strcmp(w.where, "int") && n == 1) cls = "single-point";
     else if (!std::strcmp(w.where, "single")) cls = "single-point";
     else if (w.w <= 2.5e-4L) cls = "min-spacing";
@@ -754,7 +771,7 @@ int main(int argc, char **argv) {
   int nsyn = tier == "thorough" ? 400 : 80;
   for (int r = 0; r < nsyn; ++r) {
     Case c = gen_case(id++, ASINH, false);
-    c.fn = SYN; c.syn_kind = r % 6;
+    c.fn = SYN; c.syn_kind = r % 8;
     double lo = -10, hi = 10;
     int sh = irand(6);
     if (sh == 0) { c.lbx = lo; c.ubx = hi; }
@@ -764,6 +781,7 @@ int main(int argc, char **argv) {
     c.lby = -1e6; c.uby = 1e6;
     if (irand(6) == 0) { c.lby = dy(4 * urand()); c.uby = c.lby + dy(8 * urand()); }
     if (c.tol < 1e-4) c.tol = 1e-3;
+    if (c.syn_kind == 6) { c.tol = 0.0625; c.lby = -1e6; c.uby = 1e6; c.isint = 0; if (r < 14) { c.lbx = 0; c.ubx = 4; } }
     cases.push_back(c);
   }
 #endif
